@@ -766,6 +766,6 @@ def run(tier, seed):
 MANIFEST = {
     "engine": "H",
     "technique": "explicit-state breadth-first search over adversary HTTP requests against the real HTTPServer/StorageServer behind treq's in-memory StubTreq; state = storage directory digest + uploads tables",
-    "text": "From each of 8 scenario states (prefixes of a background scenario with uploads in progress by two clients, a complete share and a mutable slot, plus three states where a share slot changed hands by abort / timeout / completion while a sibling share is still in progress) every request of a finite alphabet - all 12 routes and every other method on their paths, 10 Authorization variants (incl. the right token with its letter case changed), about 20 X-Tahoe-Authorization variants (missing, extra, duplicated, malformed, wrong, another client's, right) - is sent, and again from every new state it produces (2 levels quick, 3 thorough). Without the exact swissnum the answer must be >= 400 with no stored share bytes and a byte-identical server; malformed or missing secrets must give 4xx and no change; write/abort with someone else's upload secret and writes with a wrong write enabler must be refused, change nothing and leave the upload completable by its owner.",
+    "text": "From each of 8 scenario states (prefixes of a background scenario with uploads in progress by two clients, a complete share and a mutable slot, plus three states where a share slot changed hands by abort / timeout / completion while a sibling share is still in progress) every request of a finite alphabet - all 12 routes and every other method on their paths, 10 Authorization variants (incl. the right token with its letter case changed), about 20 X-Tahoe-Authorization variants (missing, extra, duplicated, malformed, wrong, another client's, right) - is sent, and again from every new state it produces (2 levels quick, 3 thorough). Without the exact swissnum the answer must be >= 400 with no stored share bytes and a byte-identical server; malformed or missing secrets must give 4xx and no change; write/abort with someone else's upload secret and writes with a wrong write enabler must be refused, change nothing and leave the upload completable by its owner. One root has the same share numbers in progress under two storage indexes by two clients.",
     "note": "Complete for the listed alphabet and depth only; TLS, timeouts and header encodings outside the alphabet are not covered. Behaviours the statement does not fix (duplicates containing the right secret, lenient base64) are counted, not judged. DESIGN.md says 13 routes; the url map has 12 (checked at start-up against the table).",
 }
